@@ -113,7 +113,101 @@ class Injector:
         strax.FileSaver._close = self.orig_close
 
 
-def run_scenario(sc, schedule_seed=0, under_dsched=True, record=None):
+class RelayTracer:
+    """Projection of a running ThreadedMailboxProcessor onto the variables of spec/Pipeline.tla (chain topologies):
+    one event per scheduler step.  Nothing in /repo is changed: the processor instance is captured by wrapping
+    __init__, and 'END was pushed' by wrapping Mailbox.send (no scheduling point lies between the push and the
+    return of send, so the flag is set in the same atomic step)."""
+
+    def __init__(self, stages, sc):
+        self.stages = list(stages)       # data types in chain order = model stages 1..NS
+        self.sc = sc
+        self.proc = None
+        self.events = []
+
+    def __enter__(self):
+        import strax.processors.threaded_mailbox as tm
+        tr = self
+        self._init = tm.ThreadedMailboxProcessor.__init__
+        self._send = strax.Mailbox.send
+
+        def __init__(proc, *a, **k):
+            tr._init(proc, *a, **k)
+            tr.proc = proc
+
+        def send(mb, msg, msg_number=None):
+            n0 = mb._n_sent
+            r = tr._send(mb, msg, msg_number)
+            if msg is StopIteration and mb._n_sent == n0 + 1:
+                mb._verif_ended = True
+            return r
+        tm.ThreadedMailboxProcessor.__init__ = __init__
+        strax.Mailbox.send = send
+        return self
+
+    def __exit__(self, *a):
+        import strax.processors.threaded_mailbox as tm
+        tm.ThreadedMailboxProcessor.__init__ = self._init
+        strax.Mailbox.send = self._send
+
+    @staticmethod
+    def reason(mb):
+        if not mb.killed:
+            return "none"
+        kb = mb.killed_because
+        e = kb[1] if isinstance(kb, (tuple, list)) and len(kb) == 3 else kb
+        if isinstance(e, H.HarnessFailure):
+            return "orig"
+        if type(e).__name__ == "OutsideException":
+            return "stop"
+        return "other:" + type(e).__name__
+
+    def actor(self, name):
+        kind, _, d = name.partition(":")
+        if kind in ("build", "load") and d in self.stages:
+            return dict(kind="stage", i=self.stages.index(d) + 1)
+        if kind == "save_0" and d in self.stages:
+            return dict(kind="saver", i=self.stages.index(d) + 1)
+        if name == "main":
+            return dict(kind="main", i=0)
+        return dict(kind="other", i=0)
+
+    def saved(self):
+        return [i + 1 for i, d in enumerate(self.stages) if any(t.name == f"save_0:{d}" for t in self.proc.mailboxes[d]._threads)]
+
+    def snapshot(self, sched, actor_name, main_done, outcome):
+        if self.proc is None:
+            return
+        if any(d not in self.proc.mailboxes for d in self.stages):      # a different graph (e.g. an intermediate type is loaded)
+            self.proc = None
+            self.events = []
+            return
+        ns = len(self.stages)
+        saved = self.saved()
+        done = {t.name: t.state == "done" for t in sched.tasks}
+        ev = dict(actor=self.actor(actor_name), sent=[], ended=[], killed=[], force=[], reason=[], rd=[], waiting=[],
+                  sdone=[bool(done.get(f"build:{d}", False) or done.get(f"load:{d}", False)) for d in self.stages],
+                  vdone=[bool(done.get(f"save_0:{d}", False)) for d in self.stages],
+                  mdone=bool(done.get("main", False)), outcome=outcome)
+        for i, d in enumerate(self.stages, 1):
+            mb = self.proc.mailboxes[d]
+            ended = bool(getattr(mb, "_verif_ended", False))
+            ev["sent"].append(mb._n_sent - (1 if ended else 0))
+            ev["ended"].append(ended)
+            ev["killed"].append(bool(mb.killed))
+            ev["force"].append(bool(mb.force_killed))
+            ev["reason"].append(self.reason(mb))
+            # subscription order: the next stage's plugin (P), then the saver (S), then - for the target - the caller (M)
+            names = (["P"] if i < ns else []) + (["S"] if i in saved else []) + (["M"] if i == ns else [])
+            hr, wf = mb._subscribers_have_read, mb._subscriber_waiting_for
+            ev["rd"].append({r: (hr[j] + 1 if j < len(hr) else 0) for j, r in enumerate(names)})
+            ev["waiting"].append({r: bool(j < len(wf) and wf[j] is not None) for j, r in enumerate(names)})
+        if self.events and {k: v for k, v in self.events[-1].items() if k != "actor"} == {k: v for k, v in ev.items() if k != "actor"}:
+            return          # nothing visible changed: a stuttering step
+        self.events.append(ev)
+
+
+def run_scenario(sc, schedule_seed=0, under_dsched=True, record=None, tracer=None):
     """sc: dict(topo, fail, lazy, max_messages, processor, consumer, n).
     consumer: None (get_array) | ("raise", k) | ("close", k) | ("pause", k)
     Returns the observation record."""
@@ -164,7 +258,7 @@ def run_scenario(sc, schedule_seed=0, under_dsched=True, record=None):
                 except BaseException as e:  # noqa
                     obs["outcome"], obs["exc_type"], obs["exc_msg"] = "raised", type(e).__name__, str(e)[:100]
             else:
-                _run_under_dsched(action, obs, schedule_seed, st, record, sc)
+                _run_under_dsched(action, obs, schedule_seed, st, record, sc, tracer)
         obs["src_calls"] = rec.count("src")
         obs["compute_calls"] = {t: rec.count(t) for t in types}
         return obs
@@ -173,7 +267,7 @@ def run_scenario(sc, schedule_seed=0, under_dsched=True, record=None):
         shutil.rmtree(d, ignore_errors=True)
 
 
-def _run_under_dsched(action, obs, seed, st, record, sc):
+def _run_under_dsched(action, obs, seed, st, record, sc, tracer=None):
     mbmod.threading = _SHIM
     s = dsched.set_sched(dsched.Sched())
     rng = random.Random(seed)
@@ -214,6 +308,8 @@ def _run_under_dsched(action, obs, seed, st, record, sc):
             s.step(t)
             if record is not None:
                 record.append(t.name)
+            if tracer is not None:
+                tracer.snapshot(s, t.name, obs["outcome"] != "", obs["outcome"] + ":" + obs["exc_type"] + ":" + obs["exc_msg"])
             if s.nsteps > 20000:
                 obs["hang"] = "step limit"
                 break
